@@ -119,6 +119,25 @@ func c08Frags(r *plan.Rng) []c08Frag {
 			"r8n := 0",
 			"for i, ch in sm.s {",
 			"	r8n += i",
+			"}",
+			"r8k := 0",
+			"for k, v in sm {",
+			"	r8k += len(k)",
+			"}"}},
+		{name: "moduleTableAppend", mods: []string{"simmod"}, lines: []string{
+			"sma := import(\"simmod\")",
+			"r8a := sma.tbl + [inp]",
+			"r8b := append(sma.tbl, inp)",
+			"r8c := r8a[len(r8a) - 1] + r8b[len(r8b) - 1]"}},
+		{name: "stdModuleIterate", mods: []string{"math", "text"}, lines: []string{
+			"mathm := import(\"math\")",
+			"textm := import(\"text\")",
+			"r8m := 0",
+			"for k, v in mathm {",
+			"	r8m += 1",
+			"}",
+			"for k, v in textm {",
+			"	r8m += len(k)",
 			"}"}},
 		{name: "mutateInputs", lines: []string{
 			"inarr[0] = inp",
